@@ -50,8 +50,7 @@ WalkOpen(e) ==
            [ok |-> TRUE, drift |-> FALSE, fs |-> fs], [i \in 1..Len(e.items) |-> i])
 NormalOpen(e) ==
   /\ e.err = "" /\ Len(e.res) = Len(e.items)
-  /\ LET x == WalkOpen(e)
-         y == WalkWrite(e, x.fs) IN
+  /\ \E x \in {WalkOpen(e)} : \E y \in {WalkWrite(e, x.fs)} :    \* bound once: each walk is evaluated a single time
        /\ x.ok /\ y.ok
        /\ Shows(e.post, x.fs) /\ ShowsT(e.post, x.fs) /\ ShowsN(e.npost, x.fs) /\ ShowsL(e.post.ldeep, e.lpost, x.fs) /\ fs' = y.fs
        /\ (x.drift => TLCSet(N + t, 1))
